@@ -195,7 +195,8 @@ class PVLEncoder(object):
             (preq, _, posteq) = s.partition("=")
             new_prefix = prefix + preq.strip() + " = "
 
-            (protected, restore) = self._protect_whitespace(posteq.strip())
+            ws = "".join(self.grammar.whitespace)
+            (protected, restore) = self._protect_whitespace(posteq.strip(ws))
             lines = textwrap.wrap(
                 protected,
                 width=(self.width - len(self.newline)),
